@@ -42,10 +42,12 @@ TRUSTED = ["POSIX path resolution and package os (OpenFile O_EXCL, Rename = Lsta
 RULE = ("histories of 10-45 operations (new slice, overwrite slice, put, put-stream, put-vec, get, get-stream, peek, has) over 2-7 keys "
         "drawn from real CID binaries (v0/v1, several codecs and hash functions, same multihash under different CIDs), ~55 hostile "
         "keys (empty, '.', '..', '/', a/b vs a//b, NUL, 255/256/300 bytes, case variants, names of store directories, keys pointing "
-        "into .temp) and random bytes; for memstore, cidlink.Memory and fsstore with each sharding function; 15% of histories write "
+        "into .temp; pairs of 159-300 byte keys sharing a prefix of >= 158 bytes) and random bytes; contents include the EMPTY block "
+        "and one-byte blocks (about a quarter of the keys) through every put form; for memstore, cidlink.Memory and fsstore with each sharding function; 15% of histories write "
         "through peeked slices and 10% give a key two contents (outside the quantifier: they tie the aliasing and first/last-write "
-        "models and are judged only up to that point); plus a fixed corpus with every hostile key alone and the witnesses of the "
-        "findings; fsstore runs in a fresh directory six levels inside a fresh parent that is listed after every operation; "
+        "models and are judged only up to that point); plus a fixed corpus with every hostile key alone, the witnesses of the "
+        "findings, the empty / one-byte block through put, put-stream (also with no chunk at all) and put-vec on every store, and "
+        "the long-key pairs; fsstore runs in a fresh directory six levels inside a fresh parent that is listed after every operation; "
         "distinct = distinct (store, sharding, operations); non-trivial = at least 4 operations")
 
 
